@@ -215,6 +215,73 @@ pub async fn run_life(log: &Log, sched: &Sched, cfg: &LifeCfg, schedule: &[Strin
     drop(new_streams);
 }
 
+/// The same question on a multi-threaded runtime, no hooks: writers, an opener and a reader run on other threads while
+/// the session is ended (owner close / EOF / reset / Alert) at a random moment; everyone must return.
+async fn run_parallel_life(log: &'static Log, seed: u64, i: u64) {
+    use std::sync::atomic::AtomicU64;
+    let mut r = Rng::new(seed);
+    let cause = *r.pick(&["owner", "eof", "rerr", "alert"]);
+    let client = r.chance(2, 3);
+    let role = if client { "client" } else { "server" };
+    let panics0 = PANICS.load(Ordering::SeqCst);
+    let factory = Arc::new(PaddingFactory::new(r.pick(&SCHEMES).as_bytes()).unwrap());
+    let rg = if client { rig::client_rig(factory, None) } else { rig::server_rig(factory, true) };
+    let sess = rg.sess.clone();
+    let mut sid = 1u32;
+    let mut stream = None;
+    if client {
+        let _ = sess.clone().start_client().await;
+        if let Ok((st, rx)) = sess.open_stream().await { std::mem::forget(rx); sid = st.id(); stream = Some(st); }
+        sess.disable_buffering();
+    } else {
+        rg.inp.push(&frame_bytes(4, 0, b"v=2\nclient=x\npadding-md5=0"));
+        rg.inp.push(&frame_bytes(1, 1, &[]));
+        tokio::time::sleep(Duration::from_millis(5)).await;
+    }
+    let mut new_streams = rg.new_streams;
+    if !client { if let Some(rx) = new_streams.as_mut() { if let Ok(st) = rx.try_recv() { stream = Some(st); } } }
+    let pending = Arc::new(AtomicU64::new(0));
+    let mut hs = Vec::new();
+    // the peer drains what the session writes, so writers make progress until the end
+    let stop = Arc::new(std::sync::atomic::AtomicBool::new(false));
+    { let (out, st) = (rg.out.clone(), stop.clone()); tokio::spawn(async move { while !st.load(Ordering::SeqCst) { out.take_record(); out.take_wlog(); tokio::time::sleep(Duration::from_millis(1)).await; } }); }
+    for w in 0..3u8 {
+        let (s2, p2) = (sess.clone(), pending.clone());
+        p2.fetch_add(1, Ordering::SeqCst);
+        hs.push(tokio::spawn(async move { loop { if s2.write_data_frame(sid, Bytes::from(vec![w; 700])).await.is_err() { break; } tokio::task::yield_now().await; } p2.fetch_sub(1, Ordering::SeqCst); }));
+    }
+    if client {
+        let (s2, p2) = (sess.clone(), pending.clone());
+        p2.fetch_add(1, Ordering::SeqCst);
+        hs.push(tokio::spawn(async move { loop { match s2.open_stream().await { Ok((_st, rx)) => std::mem::forget(rx), Err(_) => break } tokio::task::yield_now().await; } p2.fetch_sub(1, Ordering::SeqCst); }));
+    }
+    let reader = Arc::new(Mutex::new(String::from("none")));
+    if let Some(st) = stream.clone() {
+        set(&reader, "pending");
+        let rd = reader.clone();
+        hs.push(tokio::spawn(async move { let mut buf = vec![0u8; 4096]; loop { let res = { let mut g = st.reader().lock().await; g.read(&mut buf).await }; match res { Ok(0) => { set(&rd, "eof"); break } Ok(_) => continue, Err(_) => { set(&rd, "err"); break } } } }));
+    }
+    tokio::time::sleep(Duration::from_micros(r.range(200, 15000))).await;
+    let kres = Arc::new(Mutex::new(String::from("none")));
+    match cause {
+        "owner" => { set(&kres, "pending"); let (s2, k2) = (sess.clone(), kres.clone()); hs.push(tokio::spawn(async move { let _ = s2.close().await; set(&k2, "done"); })); }
+        "eof" => rg.inp.inject_eof(),
+        "rerr" => rg.inp.inject_read_error(std::io::ErrorKind::ConnectionReset, "connection reset by peer"),
+        _ => rg.inp.push(&frame_bytes(5, 0, b"fatal")),
+    }
+    let hung = tokio::time::timeout(Duration::from_secs(20), async { for h in hs { let _ = h.await; } }).await.is_err();
+    // the task that ends the session (the session's own receive task for EOF / reset / Alert) may still be inside close()
+    crate::net::wait_until(|| rg.out.shutdowns() > 0, 5000).await;
+    stop.store(true, Ordering::SeqCst);
+    let later_write = match tokio::time::timeout(Duration::from_secs(5), sess.write_data_frame(sid, Bytes::from_static(b"late"))).await { Err(_) => "hung", Ok(Ok(())) => "ok", Ok(Err(_)) => "err" };
+    let later_open = match tokio::time::timeout(Duration::from_secs(5), sess.open_stream()).await { Err(_) => "hung", Ok(Ok(_)) => "ok", Ok(Err(_)) => "err" };
+    log.block_with_consts(json!({"kind": "parallel", "i": i, "cause": cause, "role": role}), json!({"cause": cause, "role": role}),
+        vec![json!({"ev": "final", "closed": sess.is_closed(), "shutdown": rg.out.shutdowns() > 0, "reader": get(&reader), "popen": "none",
+                    "w": if hung || pending.load(Ordering::SeqCst) > 0 { "pending" } else { "err" }, "w2": "none", "k": get(&kres),
+                    "later_write": later_write, "later_open": later_open, "panics": PANICS.load(Ordering::SeqCst) - panics0})]);
+    drop(new_streams);
+}
+
 const SCHEMES: [&str; 3] = ["stop=0", "stop=50\n1=30-60\n2=10-10,20-30,c,40-50\n3=10-10,20-30,c,40-50\n4=10-10,20-30,40-50", anytls_rs::padding::DEFAULT_PADDING_SCHEME];
 
 pub fn run(args: &Args, log: &Log) -> Result<(), String> {
@@ -274,6 +341,14 @@ pub fn run(args: &Args, log: &Log) -> Result<(), String> {
         }
     });
     Sched::uninstall();
+    drop(local); drop(rt);
+    {
+        let rt = crate::net::rt();
+        let logp: &'static Log = crate::events::log();
+        let n = if thorough { 3000 } else { 200 };
+        rt.block_on(async { for i in 0..n { run_parallel_life(logp, args.seed.wrapping_mul(7331).wrapping_add(i), i).await; } });
+        rt.shutdown_timeout(Duration::from_millis(200));
+    }
     let _ = std::panic::take_hook();
     Ok(())
 }
